@@ -378,9 +378,18 @@ def run_case(case):
             first_result.setdefault(key, r1)
         else:
             stats["fit_transitions"] += 1
+            # differential oracle: what a fit makes of its own target must not depend on what happened to OTHER objects before
+            # (state leaking through class-level or module-level containers is invisible in the objects' own attributes)
+            fkey = (ev, tuple((k_, before[k_]) for k_ in sorted(allowed)))
+            fval = tuple((k_, after[k_]) for k_ in sorted(allowed))
+            if fkey in first_fit and first_fit[fkey][0] != fval:
+                bad("fit_result_depends_on_history", {"event": ev, "history": hist, "other_history": first_fit[fkey][1]}, hist + [ev])
+            first_fit.setdefault(fkey, (fval, hist))
             if kind == "fitW" and dict(w.T.parameters) != w.Tparams0:
                 bad("template_parameters_changed", {"event": ev, "template": dict(w.T.parameters)}, hist + [ev])
         return []
+
+    first_fit = {}
 
     def canon_key(parts):
         return tuple(sorted(parts.items()))
